@@ -5,12 +5,22 @@
 (* base_solver.py (BaseSolver.CreateCsvString).                                       *)
 (*                                                                                    *)
 (* One action per public call:                                                        *)
-(*   Get(name, c)       Model.GetTimeSeries(name, cutoff=c)     c = NoCut: no argument *)
+(*   Get(grp, name, c)  Model.GetTimeSeries(name, cutoff=c, group_of_series=grp)       *)
+(*                      c = NoCut: no cutoff argument.  grp selects the holder:       *)
+(*                      "main" EquationSolver.TimeSeries, "step" TimeSeriesStepTrace,  *)
+(*                      "initial" TimeSeriesInitialSteadyState.  The name need not be *)
+(*                      stored in that group (a typo, or a main-group name asked of   *)
+(*                      the - usually empty - step / initial group): the retrieval    *)
+(*                      then FAILS (KeyError), and a failed read is a read like any   *)
+(*                      other: it leaves every group of the store as it was, later    *)
+(*                      retrievals and renderings are unchanged, and asking again     *)
+(*                      fails the same way.                                           *)
 (*   MutateHeld(i, op)  the caller appends 99 to / pops the last element from the     *)
 (*                      i-th list it was given                                        *)
 (*   SetSuppress(b)     Model.TimeSeriesSupressTimeZero = b                           *)
 (*   SetCutoff(c)       Model.TimeSeriesCutoff = c              c = NoCut: None       *)
-(*   RenderTable(fmt)   EquationSolver.GenerateCSVtext(fmt)                           *)
+(*   RenderTable(grp, fmt)  EquationSolver.GenerateCSVtext(fmt) for "main", otherwise *)
+(*                      <holder of grp>.GenerateCSVtext(fmt)                          *)
 (*   BaseCsv            BaseSolver.CreateCsvString()                                  *)
 (*   Extend(name)       TimeSeriesHolder.AppendValue(name, 7): the solver (or a user) *)
 (*                      adds a point to one series; not a read.  Together with an     *)
@@ -35,7 +45,9 @@
 EXTENDS Integers, Sequences, TLC, FiniteSets
 
 CONSTANTS
-    InitStore,      \* series name -> sequence of small ints (EquationSolver.TimeSeries)
+    InitStore,      \* group -> (series name -> sequence of small ints); groups "main", "step", "initial"
+    Asks,           \* set of << group, name >>: what Get may ask for (the name may be absent from the group)
+    RGroups,        \* groups RenderTable may render
     VarLists,       \* set of initial BaseSolver.VariableList values (sequences of names)
     BaseStore,      \* name -> sequence: the series attributes of the BaseSolver object
     CutArgs,        \* cutoff values used as argument / model default (NoCut = none)
@@ -63,43 +75,49 @@ EffCut(carg, dflt) == IF carg = NoCut THEN dflt ELSE carg
 (* Without one: pinned code = "val = stored; if suppress: val.pop(0); return val".     *)
 (*   alias    the list handed out is the stored list                                  *)
 (*   onstore  the pop of the k=0 point is applied to the stored list                  *)
-(* pop(0) on an empty list raises (ok = FALSE); unreachable while the store is intact *)
-GetOp(st, dflt, sup, name, carg) ==
+(* pop(0) on an empty list raises (ok = FALSE); unreachable while the store is intact. *)
+(* A name that is not stored in the group raises KeyError whatever cutoff and          *)
+(* suppression are (found = FALSE, ok = FALSE) and nothing at all is stored.           *)
+GetOp(st, dflt, sup, grp, name, carg) ==
     LET c       == EffCut(carg, dflt)
-        s       == st[name]
+        found   == name \in DOMAIN st[grp]
+        s       == IF found THEN st[grp][name] ELSE << >>
         nocut   == c = NoCut
         onstore == nocut /\ sup /\ AsFound_PopOnStore
         alias   == nocut /\ AsFound_AliasWhenNoCutoff /\ (sup => AsFound_PopOnStore)
-        ok      == ~(sup /\ Prefix(s, c) = << >>)
+        ok      == found /\ ~(sup /\ Prefix(s, c) = << >>)
         vals    == IF ok THEN GetExpect(s, c, sup) ELSE << >>
-    IN [ store |-> IF onstore /\ ok THEN [st EXCEPT ![name] = Tail(s)] ELSE st,
+    IN [ store |-> IF onstore /\ ok THEN [st EXCEPT ![grp][name] = Tail(s)] ELSE st,
          ok    |-> ok,
+         found |-> found,
+         err   |-> IF ok THEN "" ELSE IF found THEN "IndexError" ELSE "KeyError",
          c     |-> c,
          pre   |-> s,
          vals  |-> vals,
-         entry |-> [name |-> name, alias |-> alias /\ ok, vals |-> IF alias /\ ok THEN << >> ELSE vals] ]
+         entry |-> [grp |-> grp, name |-> name, alias |-> alias /\ ok,
+                    vals |-> IF alias /\ ok THEN << >> ELSE vals] ]
 
 (* value of a list in the caller's hands: an alias *is* the stored list *)
-HeldVal(st, h) == IF h.alias THEN st[h.name] ELSE h.vals
+HeldVal(st, h) == IF h.alias THEN st[h.grp][h.name] ELSE h.vals
 
 MutateOp(st, hd, i, op) ==
     LET h   == hd[i]
         cur == HeldVal(st, h)
         new == IF op = "append" THEN Append(cur, Sentinel) ELSE SubSeq(cur, 1, Len(cur) - 1)
-    IN [ store |-> IF h.alias THEN [st EXCEPT ![h.name] = new] ELSE st,
+    IN [ store |-> IF h.alias THEN [st EXCEPT ![h.grp][h.name] = new] ELSE st,
          held  |-> IF h.alias THEN hd ELSE [hd EXCEPT ![i].vals = new] ]
 
-(* TimeSeriesHolder.AppendValue *)
-ExtendOp(st, name) == [st EXCEPT ![name] = Append(@, ExtVal)]
+(* TimeSeriesHolder.AppendValue on the main group *)
+ExtendOp(st, name) == [st EXCEPT !["main"][name] = Append(@, ExtVal)]
 
 (* TimeSeriesHolder.GenerateCSVtext: one column per series, min(length) rows; the      *)
 (* store may be ragged and stays exactly as it is.                                    *)
 (* The text is modelled by its content; column order is C19's subject.                *)
 MinLen(st) == LET lens == { Len(st[n]) : n \in DOMAIN st }
               IN CHOOSE m \in lens : \A k \in lens : m <= k
-RenderOp(st, fmt) ==
+RenderOp(st, fmt) ==          \* st = the holder of one group; an empty holder renders as ''
     [ fmt |-> fmt, hdr |-> << >>,
-      cols |-> [n \in DOMAIN st |-> SubSeq(st[n], 1, MinLen(st))] ]
+      cols |-> IF DOMAIN st = {} THEN << >> ELSE [n \in DOMAIN st |-> SubSeq(st[n], 1, MinLen(st))] ]
 
 (* BaseSolver.CreateCsvString: 't' first, then the other names in list order; rows    *)
 (* are counted on the first column.                                                   *)
@@ -113,8 +131,8 @@ BaseCsvOp(vl) ==
                        cols |-> [x \in { hdr[i] : i \in 1..Len(hdr) } |-> SubSeq(BaseStore[x], 1, n)] ] ]
 
 ----------------------------------------------------------------------------
-VARIABLES store,     \* EquationSolver.TimeSeries
-          held,      \* lists handed to the caller: [name, alias, vals]
+VARIABLES store,     \* group -> holder: EquationSolver.TimeSeries / .TimeSeriesStepTrace / .TimeSeriesInitialSteadyState
+          held,      \* lists handed to the caller: [grp, name, alias, vals]
           cutoff,    \* Model.TimeSeriesCutoff (NoCut = None)
           suppress,  \* Model.TimeSeriesSupressTimeZero
           varlist,   \* BaseSolver.VariableList
@@ -126,9 +144,9 @@ VARIABLES store,     \* EquationSolver.TimeSeries
 
 vars == << store, held, cutoff, suppress, varlist, last, gets, texts, hist, vl0 >>
 
-NoLast == [ev |-> "", ok |-> TRUE, c |-> NoCut, sup |-> FALSE, pre |-> << >>, vals |-> << >>]
-Call(ev, name, c, i, op, b, fmt) ==
-    [ev |-> ev, name |-> name, c |-> c, i |-> i, op |-> op, b |-> b, fmt |-> fmt]
+NoLast == [ev |-> "", ok |-> TRUE, found |-> TRUE, c |-> NoCut, sup |-> FALSE, pre |-> << >>, vals |-> << >>]
+Call(ev, grp, name, c, i, op, b, fmt) ==
+    [ev |-> ev, grp |-> grp, name |-> name, c |-> c, i |-> i, op |-> op, b |-> b, fmt |-> fmt]
 
 (* (re)start with a given store and variable list; used by Init and by the trace spec *)
 Reset(st, vl) ==
@@ -140,14 +158,16 @@ Init == /\ store = InitStore /\ held = << >> /\ cutoff = NoCut /\ suppress = FAL
         /\ varlist \in VarLists /\ last = NoLast /\ gets = {} /\ texts = {} /\ hist = << >>
         /\ vl0 = varlist
 
-Get(name, carg) ==
-    LET r == GetOp(store, cutoff, suppress, name, carg) IN
+Get(grp, name, carg) ==
+    LET r == GetOp(store, cutoff, suppress, grp, name, carg) IN
     /\ Len(hist) < MaxHist
     /\ store' = r.store
     /\ held' = Append(held, r.entry)
-    /\ last' = [ev |-> "Get", ok |-> r.ok, c |-> r.c, sup |-> suppress, pre |-> r.pre, vals |-> r.vals]
-    /\ gets' = gets \cup { [key |-> [name |-> name, c |-> r.c, sup |-> suppress], src |-> store, out |-> r.vals] }
-    /\ hist' = Append(hist, Call("Get", name, carg, 0, "", FALSE, ""))
+    /\ last' = [ev |-> "Get", ok |-> r.ok, found |-> r.found, c |-> r.c, sup |-> suppress, pre |-> r.pre,
+                vals |-> r.vals]
+    /\ gets' = gets \cup { [key |-> [grp |-> grp, name |-> name, c |-> r.c, sup |-> suppress], src |-> store,
+                            out |-> [ok |-> r.ok, err |-> r.err, vals |-> r.vals]] }
+    /\ hist' = Append(hist, Call("Get", grp, name, carg, 0, "", FALSE, ""))
     /\ UNCHANGED << cutoff, suppress, varlist, texts, vl0 >>
 
 MutateHeld(i, op) ==
@@ -158,28 +178,28 @@ MutateHeld(i, op) ==
     /\ store' = r.store
     /\ held' = r.held
     /\ last' = [NoLast EXCEPT !.ev = "MutateHeld"]
-    /\ hist' = Append(hist, Call("MutateHeld", "", NoCut, i, op, FALSE, ""))
+    /\ hist' = Append(hist, Call("MutateHeld", "", "", NoCut, i, op, FALSE, ""))
     /\ UNCHANGED << cutoff, suppress, varlist, gets, texts, vl0 >>
 
 SetSuppress(b) ==
     /\ Len(hist) < MaxHist
     /\ suppress' = b
     /\ last' = [NoLast EXCEPT !.ev = "SetSuppress"]
-    /\ hist' = Append(hist, Call("SetSuppress", "", NoCut, 0, "", b, ""))
+    /\ hist' = Append(hist, Call("SetSuppress", "", "", NoCut, 0, "", b, ""))
     /\ UNCHANGED << store, held, cutoff, varlist, gets, texts, vl0 >>
 
 SetCutoff(c) ==
     /\ Len(hist) < MaxHist
     /\ cutoff' = c
     /\ last' = [NoLast EXCEPT !.ev = "SetCutoff"]
-    /\ hist' = Append(hist, Call("SetCutoff", "", c, 0, "", FALSE, ""))
+    /\ hist' = Append(hist, Call("SetCutoff", "", "", c, 0, "", FALSE, ""))
     /\ UNCHANGED << store, held, suppress, varlist, gets, texts, vl0 >>
 
-RenderTable(fmt) ==
+RenderTable(grp, fmt) ==
     /\ Len(hist) < MaxHist
-    /\ texts' = texts \cup { [key |-> fmt, src |-> store, out |-> RenderOp(store, fmt)] }
+    /\ texts' = texts \cup { [key |-> grp \o ":" \o fmt, src |-> store[grp], out |-> RenderOp(store[grp], fmt)] }
     /\ last' = [NoLast EXCEPT !.ev = "RenderTable"]
-    /\ hist' = Append(hist, Call("RenderTable", "", NoCut, 0, "", FALSE, fmt))
+    /\ hist' = Append(hist, Call("RenderTable", grp, "", NoCut, 0, "", FALSE, fmt))
     /\ UNCHANGED << store, held, cutoff, suppress, varlist, gets, vl0 >>
 
 BaseCsv ==
@@ -188,22 +208,20 @@ BaseCsv ==
     /\ varlist' = r.varlist
     /\ texts' = texts \cup { [key |-> "base", src |-> BaseStore, out |-> r.text] }
     /\ last' = [NoLast EXCEPT !.ev = "BaseCsv"]
-    /\ hist' = Append(hist, Call("BaseCsv", "", NoCut, 0, "", FALSE, ""))
+    /\ hist' = Append(hist, Call("BaseCsv", "", "", NoCut, 0, "", FALSE, ""))
     /\ UNCHANGED << store, held, cutoff, suppress, gets, vl0 >>
 
 Extend(name) ==
     /\ Len(hist) < MaxHist
     /\ store' = ExtendOp(store, name)
     /\ last' = [NoLast EXCEPT !.ev = "Extend"]
-    /\ hist' = Append(hist, Call("Extend", name, NoCut, 0, "", FALSE, ""))
+    /\ hist' = Append(hist, Call("Extend", "main", name, NoCut, 0, "", FALSE, ""))
     /\ UNCHANGED << held, cutoff, suppress, varlist, gets, texts, vl0 >>
 
-Names == DOMAIN store
-
 ReadStep ==
-    \/ \E n \in Names, c \in CutArgs : Get(n, c)
+    \/ \E a \in Asks, c \in CutArgs : Get(a[1], a[2], c)
     \/ \E i \in 1..Len(held), op \in {"append", "pop"} : MutateHeld(i, op)
-    \/ \E f \in Fmts : RenderTable(f)
+    \/ \E g \in RGroups, f \in Fmts : RenderTable(g, f)
     \/ BaseCsv
 
 Next == \/ ReadStep
@@ -218,12 +236,14 @@ Spec == Init /\ [][Next]_vars
 (* retrieving, rendering and mutating a returned list leave the stored results alone *)
 C16_ReadsArePure == [][ReadStep => UNCHANGED << store, varlist >>]_vars
 
-(* first cutoff+1 points (all without a cutoff), without the k=0 point under suppression *)
+(* first cutoff+1 points (all without a cutoff), without the k=0 point under suppression; *)
+(* a series that is not stored is not retrieved                                          *)
 C16_GetValue ==
-    last.ev = "Get" => /\ last.ok
-                       /\ last.vals = GetExpect(last.pre, last.c, last.sup)
+    last.ev = "Get" => IF last.found THEN /\ last.ok
+                                          /\ last.vals = GetExpect(last.pre, last.c, last.sup)
+                       ELSE ~last.ok
 
-(* same stored series => same retrieval / same text *)
+(* same stored series => same retrieval (the same list, or the same failure) / same text *)
 C16_Repeatable ==
     /\ \A x, y \in gets  : (x.key = y.key /\ x.src = y.src) => x.out = y.out
     /\ \A x, y \in texts : (x.key = y.key /\ x.src = y.src) => x.out = y.out
